@@ -168,6 +168,11 @@ func (it *interp) stmt(n *N, env *Env) (compl, any) {
 		env.vars[n.S] = &Cell{V: cl}
 		return normal, cl
 	case "assign":
+		// `a op= e` is `a = a op e`: the variable is read before e is evaluated
+		var old any
+		if n.L != "" && n.L != "=" {
+			old = it.cell(n.S, env, false).V
+		}
 		v, c := it.expr(n.C[0], env)
 		if c.kind != cNormal {
 			return c, nil
@@ -177,11 +182,11 @@ func (it *interp) stmt(n *N, env *Env) (compl, any) {
 		case "", "=":
 			cell.V = v
 		case "+=":
-			cell.V = new(big.Int).Add(cell.V.(*big.Int), v.(*big.Int))
+			cell.V = new(big.Int).Add(old.(*big.Int), v.(*big.Int))
 		case "-=":
-			cell.V = new(big.Int).Sub(cell.V.(*big.Int), v.(*big.Int))
+			cell.V = new(big.Int).Sub(old.(*big.Int), v.(*big.Int))
 		case "*=":
-			cell.V = new(big.Int).Mul(cell.V.(*big.Int), v.(*big.Int))
+			cell.V = new(big.Int).Mul(old.(*big.Int), v.(*big.Int))
 		}
 		return normal, cell.V
 	case "push":
@@ -580,6 +585,10 @@ func (it *interp) expr(n *N, env *Env) (any, compl) {
 			fmt.Fprintf(&it.out, "e%s\n", ToString(args[0]))
 			return args[1], normal
 		}
+		if n.S == "deep" {
+			it.events["deep_call"]++
+			return it.callClosure(args[1].(*Closure), nil)
+		}
 		if m, ok := it.methods[n.S]; ok {
 			fenv := newEnv(nil, true)
 			for i, p := range m.X {
@@ -591,14 +600,18 @@ func (it *interp) expr(n *N, env *Env) (any, compl) {
 		if !ok {
 			panic("mini: call of non-closure " + n.S)
 		}
-		it.events["closure_call"]++
-		fenv := newEnv(cl.Env, true)
-		for i, p := range cl.Fn.X {
-			fenv.vars[p.S] = &Cell{V: args[i]}
-		}
-		return it.finishCall(it.callBody(cl.Fn.B[0], fenv), cl.Fn.B[0], fenv)
+		return it.callClosure(cl, args)
 	}
 	panic("mini: unknown expr " + n.K)
+}
+
+func (it *interp) callClosure(cl *Closure, args []any) (any, compl) {
+	it.events["closure_call"]++
+	fenv := newEnv(cl.Env, true)
+	for i, p := range cl.Fn.X {
+		fenv.vars[p.S] = &Cell{V: args[i]}
+	}
+	return it.finishCall(it.callBody(cl.Fn.B[0], fenv), cl.Fn.B[0], fenv)
 }
 
 // lastVals remembers the value of the last statement of function bodies.
